@@ -115,11 +115,11 @@ def build(template_path, out_path, canary=False, repo=None, mutate=None):
                             rng, _, new = arg.partition(" ==> ")
                             a, _, b = rng.partition(" ... ")
                             cur = {"op": "replace_range", "start": a, "stop": b, "new": new, "text": ""}
-                        elif op == "rewrite":
+                        elif op in ("rewrite", "rewrite_all"):
                             if arg.endswith(" ==>"):
                                 arg += " "
                             old, _, new = arg.partition(" ==> ")
-                            cur = {"op": "rewrite", "old": old, "new": new, "text": ""}
+                            cur = {"op": op, "old": old, "new": new, "text": ""}
                         else:
                             raise LostAnchor(f"unknown directive {t}")
                         cut.clauses.append(cur)
